@@ -18,6 +18,8 @@ Directive grammar (each on its own line, leading whitespace allowed):
   //@ loop-end N            ... immediately before the closing brace of the N-th loop's body
   //@ loop-after N          ... immediately after the N-th loop (a statement position)
   //@ for-next N into=F next=G [iter=NAME]   rule R18: the N-th loop, a `for`, is written as `loop { match G(&mut it) {..} }`
+  //@ region-loop-body "TEXT" [#k]   rule R19: like region-start, but only the BODY of the loop that starts at TEXT (one iteration);
+                            a `continue` of that loop becomes `return <epilogue>`
   //@ region-start "TEXT" / region-end "TEXT" / region-as HEADER / region-prologue TEXT / region-epilogue TEXT
                             rule R16: the block statement of the fn that starts at TEXT becomes the body of a
                             synthetic function with the declared header (nested fn items are cut; select them with
@@ -777,6 +779,22 @@ def extract_item(path, selector, opts, directives, findings_open):
                 raise ExtractError("region end is not the first token of a later statement in %s %s" % (path, selector))
             c = _stmt_extent(st_, i1)
         r_lo, r_hi = st_[i0].start, st_[c].end
+        body_only = rg.get("body_only")
+        if body_only:
+            # R19: only the BODY of the loop statement (one iteration); its pattern bindings become parameters of the declared header
+            if st_[i0].text not in ("for", "while", "loop") or rg.get("end"):
+                raise ExtractError("region-loop-body needs a single loop statement in %s %s" % (path, selector))
+            jb = c
+            # c is the closing brace of the body: find its opening brace
+            d_ = 0; jo = c
+            while jo >= i0:
+                if st_[jo].kind == "punct":
+                    if st_[jo].text == "}": d_ += 1
+                    elif st_[jo].text == "{":
+                        d_ -= 1
+                        if d_ == 0: break
+                jo -= 1
+            r_lo, r_hi = st_[jo].end, st_[c].start
         region = orig[r_lo:r_hi]
         # cut nested fn items
         cuts = []
@@ -784,6 +802,20 @@ def extract_item(path, selector, opts, directives, findings_open):
             lo, hi = nf.start - start, nf.end - start
             if r_lo <= lo and hi <= r_hi: cuts.append((lo - r_lo, hi - r_lo, ""))
         region = apply_edits(region, cuts)
+        if rg.get("body_only"):
+            # `continue` of THIS loop (not of loops nested in the body) ends the iteration: `return <epilogue>`
+            t3, st3 = _sig_with_index(region)
+            nested = []
+            for (kw, lb) in _loop_headers("{" + region + "}", sig(lex("{" + region + "}")), 0):
+                pass
+            stw = sig(lex("{" + region + "}"))
+            spans = [(stw[lb].start - 1, stw[match_close(stw, lb)].end - 1) for (kw, lb) in _loop_headers("{" + region + "}", stw, 0)]
+            eds = []
+            for i3, t in enumerate(st3):
+                if t.kind == "ident" and t.text == "continue" and not any(a <= t.start < b for a, b in spans):
+                    eds.append((t.start, t.end, "return " + rg.get("epilogue", "")))
+            region = apply_edits(region, eds)
+            if eds: rules.append("R19")
         # a statement nested in the region that is a region of its own (verified separately against the same text) is replaced
         # by a call to its synthetic function
         for (anc, repl) in rg.get("calls", []):
@@ -1117,6 +1149,10 @@ def generate(spec_path, open_findings=(), auto_helpers=()):
                         if d2 == "end": i += 1; break
                         if d2.startswith("region-start "):
                             q, _r = _parse_quoted(d2[len("region-start "):]); directives.setdefault("region", {})["start"] = q
+                            if _r.strip().startswith("#"): directives["region"]["start_k"] = int(_r.strip()[1:])
+                        elif d2.startswith("region-loop-body "):
+                            q, _r = _parse_quoted(d2[len("region-loop-body "):]); directives.setdefault("region", {})["start"] = q
+                            directives["region"]["body_only"] = True
                             if _r.strip().startswith("#"): directives["region"]["start_k"] = int(_r.strip()[1:])
                         elif d2.startswith("region-end "):
                             q, _r = _parse_quoted(d2[len("region-end "):]); directives.setdefault("region", {})["end"] = q
